@@ -395,9 +395,26 @@ def size_only_feeds_claims(chk, rule, prog):
     si = f.param_index("source_size")
     users = f.users(Arg(f, si))
     n = 0
+    CL = claim_helper(prog)
+
+    def only_provided(g, pi_, depth=0):
+        """parameter pi_ of the unit-internal helper g is used for nothing but being handed on as the claim routine's `provided`"""
+        if depth > 3:
+            return False
+        us = g.users(Arg(g, pi_))
+        return bool(us) and all(passes_on(g, x, lambda o: isinstance(o, Arg) and o.i == pi_, depth) for x in us)
+
+    def passes_on(g, u, is_it, depth):
+        if u.op != "call" or not u.callee:
+            return False
+        pos = [k for k, o in enumerate(u.operands) if is_it(o)]
+        if u.callee == CL:
+            return pos == [1]
+        h = prog.funcs.get(u.callee)
+        return h is not None and h.internal and len(pos) == 1 and only_provided(h, pos[0], depth + 1)
     for u in users:
         n += 1
-        ok = u.op == "call" and u.callee == claim_helper(prog) and [k for k, o in enumerate(u.operands) if isinstance(o, Arg) and o.i == si] == [1]
+        ok = passes_on(f, u, lambda o: isinstance(o, Arg) and o.i == si, 0)
         chk.ob(rule, "use of source_size at %s" % u.loc(), ok, u.loc(), fn=f.name, key="ssz:%d" % u.line,
                detail="" if ok else "source_size is used by %r, not only as the 'provided' argument of claim_bytes" % u)
     c = prog.fn(claim_helper(prog))
